@@ -38,6 +38,7 @@ type callEnv struct {
 }
 
 type Summary struct {
+	truePost   []*sumCand // for a single bool result: facts that hold whenever the result is true
 	post       []*sumCand
 	cellShrink map[int]bool // param index -> callee never grows *param (candidate)
 }
